@@ -275,7 +275,7 @@ def param_deps(func, expr, at_stmt, cfg=None, _memo=None, _depth=0):
             if any(cfg.entry.idx in g and u in g and nx.has_path(g, cfg.entry.idx, u) for u in use_nodes):
                 out.add(name)
         for d in ds:
-            others = all_def_nodes - set(def_nodes[id(d)])
+            others = all_def_nodes - set(def_nodes[id(d)]) - set(use_nodes)  # `x = f(x)`: the use is evaluated before x is re-bound
             g = cfg.g.subgraph([n for n in cfg.g.nodes if n not in others])
             reaches = False
             for a in def_nodes[id(d)]:
